@@ -17,6 +17,8 @@ DEVS = [
     {"dev": {"k": "false_reported_unknown_label"}, "need_disclosed": 1},
     {"dev": {"k": "false_reported_swap"}, "need_disclosed": 2},
     {"dev": {"k": "disc_reverse"}, "need_disclosed": 2},
+    {"dev": {"k": "reported_reorder"}, "need_disclosed": 2},
+    {"dev": {"k": "reported_reorder"}, "need_disclosed": 3},
     {"dev": {"k": "disc_dup"}, "need_disclosed": 1},
     {"dev": {"k": "disc_pad_oob_first"}, "need_disclosed": 1},
     {"dev": {"k": "disc_pad_oob_last"}, "need_disclosed": 1},
